@@ -177,6 +177,60 @@ func (w *vqWorld) snapshot() (map[int]bool, map[int]int) {
 	return in, pr
 }
 
+// vqContinuations replays prefix on a fresh queue, then every sequence of 0..3 pushes of fresh ids
+// (priorities 1..3), then pops everything; returns the first contract failure.
+func vqContinuations(prefix [][]json.RawMessage) string {
+	var seqs [][]int
+	var gen func(cur []int)
+	gen = func(cur []int) {
+		seqs = append(seqs, append([]int(nil), cur...))
+		if len(cur) == 3 {
+			return
+		}
+		for p := 1; p <= 3; p++ {
+			gen(append(cur, p))
+		}
+	}
+	gen(nil)
+	for _, ps := range seqs {
+		w := newVqWorld(8)
+		for _, st := range prefix {
+			var op string
+			var x, p int
+			json.Unmarshal(st[0], &op)
+			json.Unmarshal(st[1], &x)
+			json.Unmarshal(st[2], &p)
+			if op == "Pop" || op == "Min" {
+				x = 0
+			}
+			if _, err := w.apply(op, x, p); err != nil {
+				return "continuation: " + err.Error()
+			}
+		}
+		fresh := 8
+		for _, p := range ps {
+			for fresh > 0 && w.in[fresh] {
+				fresh--
+			}
+			if fresh == 0 {
+				break
+			}
+			inB, prB := w.snapshot()
+			prB[fresh] = p
+			if _, err := w.apply("Push", fresh, p); err != nil {
+				return "continuation: " + err.Error()
+			}
+			if why := w.contract("Push", fresh, -1, inB, prB); why != "" {
+				return fmt.Sprintf("continuation pushes %v: %s", ps, why)
+			}
+		}
+		if why := w.drain(); why != "" {
+			return fmt.Sprintf("continuation pushes %v: %s", ps, why)
+		}
+	}
+	return ""
+}
+
 // vector = [[op, x, p, ret, a, prios, idxs], ...]
 func TestVerifPQReplay(t *testing.T) {
 	out := vuOpenOut("VERIF_OUT")
@@ -248,7 +302,16 @@ func TestVerifPQReplay(t *testing.T) {
 					out.Emit(map[string]interface{}{"kind": "drift", "vector": json.RawMessage(raw), "step": k + 1,
 						"got": []interface{}{ret, ga, gp, gi}})
 				}
-				return // later steps of this vector are not comparable
+				// later steps of this vector are not comparable.  An arrangement the transcription does not
+				// produce may still be a heap; whether it is shows in what it pops later: every continuation
+				// of up to three pushes of fresh elements followed by popping everything is run on the real queue
+				if why := vqContinuations(vec[:k+1]); why != "" {
+					ac.bad++
+					if ac.bad <= 3 {
+						out.Emit(map[string]interface{}{"kind": "mismatch", "vector": json.RawMessage(raw), "step": k + 1, "why": why})
+					}
+				}
+				return
 			}
 			if len(a) >= 3 {
 				swaps = true
